@@ -250,4 +250,49 @@ func extractC20(c *Ctx) {
 		})
 	}
 	c.Add("c20GwParseExactSlash", "Bool", LeanBool(exact), pos(gwParse), "gwbased.Parse runs the parser with exactSlash: true")
+
+	// routing.buildPattern: the only way to a pattern is Parse -> Compile -> NewPattern
+	const rt = "routing/pattern_router.go"
+	bp := c.FuncDecl(rt, "", "buildPattern")
+	var calls, returns, assigns []string
+	stmts := 0
+	if bp != nil {
+		stmts = len(bp.Body.List)
+		ast.Inspect(bp.Body, func(n ast.Node) bool {
+			switch x := n.(type) {
+			case *ast.CallExpr:
+				calls = append(calls, c.Src(x.Fun))
+			case *ast.ReturnStmt:
+				if len(x.Results) > 0 {
+					returns = append(returns, c.Src(x.Results[0]))
+				} else {
+					returns = append(returns, "")
+				}
+			case *ast.AssignStmt:
+				lhs := make([]string, len(x.Lhs))
+				for i, l := range x.Lhs {
+					lhs[i] = c.Src(l)
+				}
+				rhs := make([]string, len(x.Rhs))
+				for i, r := range x.Rhs {
+					rhs[i] = c.Src(r)
+				}
+				assigns = append(assigns, strings.Join(lhs, ",")+x.Tok.String()+strings.Join(rhs, ","))
+			}
+			return true
+		})
+	}
+	c.Add("c20BpCalls", "List String", LeanStrList(calls), pos(bp), "every call in routing.buildPattern, in source order")
+	c.Add("c20BpReturns", "List String", LeanStrList(returns), pos(bp), "first result of every return statement of buildPattern")
+	c.Add("c20BpAssigns", "List String", LeanStrList(assigns), pos(bp), "every assignment of buildPattern")
+	c.Add("c20BpStmts", "Nat", strconv.Itoa(stmts), pos(bp), "number of top-level statements of buildPattern")
+	imp := "?"
+	if f := c.File(rt); f != nil {
+		for _, is := range f.Imports {
+			if is.Name != nil && is.Name.Name == "httprule" {
+				imp, _ = strconv.Unquote(is.Path.Value)
+			}
+		}
+	}
+	c.Add("c20BpParserImport", "String", LeanStr(imp), rt, "the package the name httprule is bound to in routing/pattern_router.go")
 }
